@@ -44,6 +44,7 @@ type verifClientResult struct {
 	Err      string `json:"err,omitempty"`
 	Canceled bool   `json:"canceled,omitempty"`
 	BodyLen  int    `json:"body_len"`
+	WantLen  int    `json:"want_len"` // -1: not determined by the plan (a second post with another size may win)
 }
 
 func verifBody(tok string, n int) []byte {
@@ -166,6 +167,14 @@ func verifRunSchedule(out *verifOut, si, n, npollers int, rng *verifRng, sizes [
 					plans[c].respSize = 6000 + 3000
 				}
 			}
+		}
+	}
+	if si%6 == 3 && n <= 100 {
+		// two responses of several MiB among the others (larger than any buffer or default limit on the way)
+		for c := 0; c < 2 && c < n; c++ {
+			plans[c].respSize = 3<<20 + 17 + c
+			plans[c].dupPost = false
+			plans[c].cancelAt = 0
 		}
 	}
 	unknownPosts := rng.intn(3)
@@ -439,6 +448,10 @@ func verifRunSchedule(out *verifOut, si, n, npollers int, rng *verifRng, sizes [
 			res.RespHdr = resp.Header.Get("X-Verif-Resp")
 			res.BodyTok, res.BodyOK = verifBodyToken(b)
 			res.BodyLen = len(b)
+			res.WantLen = -1
+			if !pl.dupPost {
+				res.WantLen = len(verifBody(fmt.Sprintf("R|%s|%d", pl.tok, 0), pl.respSize))
+			}
 			res.Trailer = resp.Trailer.Get("X-Verif-Trailer")
 		}(c)
 	}
